@@ -156,25 +156,48 @@ from cryptography.hazmat.primitives.asymmetric import ec as cec   # noqa: E402
 from cryptography.hazmat.primitives.asymmetric.utils import (     # noqa: E402
     decode_dss_signature, encode_dss_signature)
 
-NOW = _dt.datetime(2026, 3, 1, 12, 0, 0, tzinfo=_dt.timezone.utc)
 P256_N = 0xFFFFFFFF00000000FFFFFFFFFFFFFFFFBCE6FAADA7179E84F3B9CAC2FC632551
 
 
-class FakeDatetime(_dt.datetime):
-    """Stands in for `datetime` in admin.certificate_v2 (the clock of validity checks). Like the
-    real class on a host whose time zone is not UTC, now() without a time zone gives naive LOCAL
-    time: `local_offset` is the host's UTC offset in seconds."""
-    local_offset = 0
+def now():
+    """The validity windows of generated certificates are laid around the REAL current time, so
+    that the code under test may read the clock any way it likes (datetime.now(UTC), time.time(),
+    the X.509 library's own verifier, ...). Nothing but the certificates' dates depends on it:
+    cases name their windows symbolically, and every window boundary is at least 30 minutes
+    away from the instant of validation."""
+    return _dt.datetime.now(_dt.timezone.utc).replace(microsecond=0)
 
-    @classmethod
-    def now(cls, tz=None):
-        if tz is not None:
-            return NOW.astimezone(tz)
-        return (NOW + _dt.timedelta(seconds=cls.local_offset)).replace(tzinfo=None)
 
-    @classmethod
-    def utcnow(cls):
-        return NOW.replace(tzinfo=None)
+class host_timezone:
+    """Runs a block with the PROCESS time zone set to `offset` seconds east of UTC (POSIX TZ +
+    tzset), as on a host whose local time is not UTC: naive datetime.now() is then really local
+    time and aware conversions stay correct."""
+
+    def __init__(self, offset):
+        self.offset = int(offset or 0)
+
+    def __enter__(self):
+        import os
+        import time
+        self.saved = os.environ.get("TZ")
+        o = self.offset
+        sign = "-" if o >= 0 else "+"        # POSIX: the sign is that of UTC minus local
+        a = abs(o)
+        os.environ["TZ"] = "VRF%s%02d:%02d" % (sign, a // 3600, (a % 3600) // 60)
+        time.tzset()
+        if time.localtime().tm_gmtoff != o:
+            raise RuntimeError("could not set the host time zone to %d" % o)
+        return self
+
+    def __exit__(self, *a):
+        import os
+        import time
+        if self.saved is None:
+            os.environ.pop("TZ", None)
+        else:
+            os.environ["TZ"] = self.saved
+        time.tzset()
+        return False
 
 
 def p256_key(k, curve=None, role=None):
@@ -196,11 +219,14 @@ def pub_raw64(priv_or_pub):
 
 
 WINDOWS = {
-    "valid": (-86400, 86400), "expired": (-172800, -1), "not-yet": (1, 172800),
-    "ends-now": (-86400, 0), "starts-now": (0, 86400), "long": (-10 ** 8, 10 ** 8),
+    "valid": (-86400, 86400), "expired": (-172800, -3600 * 8), "not-yet": (3600 * 8, 172800),
+    "long": (-10 ** 8, 10 ** 8),
     "expired-1h": (-86400, -3600), "not-yet-1h": (3600, 86400),
+    "expired-30m": (-86400, -1800), "not-yet-30m": (1800, 86400),
     "ends-in-1h": (-86400, 3600), "started-1h-ago": (-3600, 86400),
+    "ends-in-30m": (-86400, 1800), "started-30m-ago": (-1800, 86400),
 }
+BROKEN_WINDOWS = ("expired", "not-yet", "expired-1h", "not-yet-1h", "expired-30m", "not-yet-30m")
 
 
 def make_cert(subject_cn, subject_pub, issuer_cn, issuer_priv, window="valid", serial=1):
@@ -210,8 +236,8 @@ def make_cert(subject_cn, subject_pub, issuer_cn, issuer_priv, window="valid", s
          .issuer_name(x509.Name([x509.NameAttribute(NameOID.COMMON_NAME, issuer_cn)]))
          .public_key(subject_pub)
          .serial_number(serial)
-         .not_valid_before(NOW + _dt.timedelta(seconds=nb))
-         .not_valid_after(NOW + _dt.timedelta(seconds=na)))
+         .not_valid_before(now() + _dt.timedelta(seconds=nb))
+         .not_valid_after(now() + _dt.timedelta(seconds=na)))
     return b.sign(issuer_priv, hashes.SHA256())
 
 
@@ -283,7 +309,7 @@ def verify_issuer_independent(subject_der, issuer_der):
 def in_window(cert_der_bytes):
     try:
         c = x509.load_der_x509_certificate(cert_der_bytes)
-        return c.not_valid_before_utc <= NOW <= c.not_valid_after_utc
+        return c.not_valid_before_utc <= now() <= c.not_valid_after_utc
     except Exception:
         return False
 
